@@ -397,7 +397,7 @@ def s3_labels(c):
 
 # --------------------------------------------------------------------------------------------- predicates
 PRED = ["perp_lines2", "perp_lines3", "perp_planes", "parallel_lines2", "parallel_planes", "parallel_line_plane", "cocircular", "collinear2", "coplanar3",
-        "concurrent2", "collinear3", "bisectors2", "bisectors3"]
+        "concurrent2", "bisectors2", "bisectors3"]
 
 
 @st.composite
